@@ -97,6 +97,18 @@ static void check_frame(const uni::Spec & spec, const std::set<uint32_t> & pad, 
         for (auto & c : mf.chunks) if (c.src == p) return &c;
         return nullptr;
     };
+    {
+        /* C14: bytes that come from neither a member nor a container (alignment padding, union filler) are zero */
+        const char * ob = reinterpret_cast<const char *>(o.get());
+        for (auto & c : mf.chunks) {
+            const char * sp = (const char *)c.src;
+            bool member = sp >= ob && sp < ob + spec.cls->size;
+            for (auto & v : l.vars) if (v.count && sp >= (const char *)v.data && sp < (const char *)v.data + v.count * v.elem) member = true;
+            if (member) continue;
+            for (size_t i = c.off; i < c.off + c.len; i++)
+                if (E[i]) { report("C14", sk + "|filler-nonzero", "filler byte at offset " + std::to_string(i) + " of the encoding is not zero", lab); break; }
+        }
+    }
     for (auto & pr : refl::resize_pairs()) {
         for (auto & v : l.vars) {
             std::string leaf = v.path.substr(v.path.rfind('.') == std::string::npos ? 0 : v.path.rfind('.') + 1);
@@ -472,6 +484,24 @@ int main(int argc, char ** argv) {
                         if (f == "apiMajor" || f.find("_present") != std::string::npos) continue;   /* in-memory selectors */
                         report("C01", kv.first + "|never-serialised:" + f, "field " + f + " of " + kv.first + " is not serialised by any object of the universe", kv.first);
                     }
+            } else if (mode == "enc") {
+                uni::Options uo;
+                std::vector<uni::Spec> U = uni::universe(uo, c.name);
+                for (size_t i = 0; i < U.size(); i++) {
+                    std::unique_ptr<ObjectHeaderBase> o(uni::build(U[i]));
+                    MemFile mf;
+                    o->write(mf);
+                    g_eval++;
+                    g_distinct.insert(hex64(fnv64(mf.data.data(), mf.data.size())));
+                    printf("E %s %s %zu\n", vx::jesc(U[i].label()).c_str(), hex64(fnv64(mf.data.data(), mf.data.size())).c_str(), mf.data.size());
+                }
+                /* default-constructed objects as well */
+                {
+                    std::unique_ptr<ObjectHeaderBase> o(c.make());
+                    MemFile mf;
+                    o->write(mf);
+                    printf("E default:%s %s %zu\n", c.name, hex64(fnv64(mf.data.data(), mf.data.size())).c_str(), mf.data.size());
+                }
             } else if (mode == "c17") {
                 snprintf(g_cur->label, sizeof g_cur->label, "default-constructed %s", c.name);
                 snprintf(g_cur->key, sizeof g_cur->key, "%s", c.name);
